@@ -68,6 +68,8 @@ pub enum OpKind {
     TaskStart,
     /// `thread::sleep` / `tokio::time::sleep`: completes when scheduled and moves the clock on
     Sleep,
+    /// link(2)
+    Link,
 }
 
 #[derive(Clone, Copy, Debug, PartialEq, Eq)]
@@ -584,6 +586,7 @@ impl State {
                 | OpKind::Write
                 | OpKind::Fsync
                 | OpKind::Rename
+                | OpKind::Link
                 | OpKind::Unlink
                 | OpKind::Mkdir
                 | OpKind::Rmdir
